@@ -116,6 +116,17 @@ def run(sim, params):
         # for the connector: cancelling it as well is harmless and not demanded either way
         unreported = {jid for jid, j in host.jobs.items() if j["submit"] <= und and j["finish"] <= und and
                       not any(r[0] == "ok" and r[4] <= ustep for kk, r in res.items() if kk == j["k"])}
+        # ...but once the connector asked for a job's output / exit code it has seen the job leave the
+        # queue: that job is not "still queued" in any reading, and must not be cancelled any more
+        fetched = set()
+        for e in host.log:
+            if e[0] == "fetch" and e[3] < ustep:  # before undeploy() was even called
+                fetched.add(e[2])
+            elif e[0] == "scancel":
+                late = sorted(set(e[2]) & fetched)
+                if late:
+                    raise Violation("undeploy_cancel_set", f"undeploy at t={und} cancelled {late} after the connector had already seen them leave the queue and "
+                                    f"started collecting their results; {case}", signature="undeploy_cancel_set:extra_after_result_fetch")
         missed = set(want) - set(got_rel)
         extra = set(got_rel) - set(want) - unreported
         if missed or extra:
